@@ -16,3 +16,6 @@ Definition read_string (p : path) : M bytes := mc <- read_file p ;; ret (content
 (* toml::from_str(..).map_err(..)?: parsing is pure; a parse error is reported as EINVAL *)
 Definition lift_parse {A} (parse : bytes -> option A) (c : bytes) : M A :=
   fun s => (s, match parse c with Some a => Ok a | None => Err EINVAL end).
+
+(* read_toml_file(p)?: the contents, parsed (a parse error is EINVAL) *)
+Definition read_doc {A} (parse : bytes -> option A) (p : path) : M A := c <- read_string p ;; lift_parse parse c.
